@@ -299,3 +299,42 @@ def _cmp(left: ast.AST, op: ast.cmpop, right: ast.AST, env: GuardEnv):
     else:
         a = Atom(env.rename(f"{lt} {_CMP_TXT[t]} {rt}"))
     return Not(a) if neg else a
+
+
+# ----------------------------------------------------------------------------- linear comparisons
+def linear(e: ast.AST):
+    """e as {term text: integer coefficient} with the constant under key 1, or None if not linear over + - and integer constants"""
+    if isinstance(e, ast.Constant) and isinstance(e.value, int) and not isinstance(e.value, bool):
+        return {1: e.value}
+    if isinstance(e, ast.BinOp) and isinstance(e.op, (ast.Add, ast.Sub)):
+        a, b = linear(e.left), linear(e.right)
+        if a is None or b is None:
+            return None
+        out = dict(a)
+        sg = 1 if isinstance(e.op, ast.Add) else -1
+        for k, v in b.items():
+            out[k] = out.get(k, 0) + sg * v
+        return out
+    if isinstance(e, ast.UnaryOp) and isinstance(e.op, ast.USub):
+        a = linear(e.operand)
+        return None if a is None else {k: -v for k, v in a.items()}
+    return {" ".join(ast.unparse(e).split()): 1}
+
+
+def linear_relation(cmp_node: ast.AST):
+    """(op, frozenset of (term, coefficient)) for `lhs <op> rhs` read as lhs - rhs <op> 0, sign-normalised for == and !=; None if not a single linear comparison"""
+    if not (isinstance(cmp_node, ast.Compare) and len(cmp_node.ops) == 1):
+        return None
+    a, b = linear(cmp_node.left), linear(cmp_node.comparators[0])
+    if a is None or b is None:
+        return None
+    d = dict(a)
+    for k, v in b.items():
+        d[k] = d.get(k, 0) - v
+    d = {k: v for k, v in d.items() if v != 0}
+    op = type(cmp_node.ops[0]).__name__
+    if op in ("Eq", "NotEq") and d:
+        first = sorted((k for k in d if k != 1), key=str)
+        if first and d[first[0]] < 0:
+            d = {k: -v for k, v in d.items()}
+    return op, frozenset(d.items())
